@@ -138,6 +138,9 @@ pub struct Program {
     /// the task that first polls this stream becomes the sweep victim (C16)
     #[serde(default)]
     pub mark_on_stream_poll: Option<StreamId>,
+    /// objects that are bare job queues used through the scheduler-level functions (no Desync, nobody waits for the queue when its last handle goes)
+    #[serde(default)]
+    pub raw_objs: Vec<ObjId>,
 }
 
 impl Program {
@@ -156,6 +159,7 @@ impl Program {
             blocked_objs: vec![],
             capacity_probe: vec![],
             mark_on_stream_poll: None,
+            raw_objs: vec![],
         }
     }
 
